@@ -40,7 +40,9 @@ REGISTRY = dict(
     text="TLC enumerates a bounded universe of multi-file IDL programs, runs the transcribed resolver (layer B) on each and "
          "on permutations of its definitions, checks B => A (declarative denotation) and order independence, and emits "
          "every program with layer A's per-node expectation; each program and permutation is run through the real "
-         "parser + checker + ResolveSymbols in-process and every reference node is compared with layer A.",
+         "parser + checker + ResolveSymbols in-process and every reference node is compared with layer A. Include binding "
+         "(spec/Include): TLC checks the transcribed parseFileRecursively / searchCircle against the declarative binding on "
+         "every directory-tree case and judges what the real ParseFile / ParseBatchString / CircleDetect returned.",
     design_ref="DESIGN.md 6 C05",
     note="Trusted: TLC, lib/idl.py rendering, harness/cmd/inproc/resolve.go (projection of the AST). Bounds: <= 4 files, "
          "typedef chains <= 4, the reference bundle of ResolveGen.tla; the binding record of an identifier value is judged by "
